@@ -96,6 +96,7 @@ func c07Docs(thorough bool) []c07Doc {
 }
 
 type c07Outcome struct {
+	Outlives int // goroutines of the call still running when it returned
 	Err      string
 	Tape     uint64
 	Deadlock bool
@@ -111,6 +112,8 @@ func (o c07Outcome) String() string {
 		return "LIVELOCK (step horizon exceeded)"
 	case o.Panic != "":
 		return "PANIC " + o.Panic
+	case o.Outlives > 0:
+		return fmt.Sprintf("%d internal goroutine(s) still running when the call returned (err=%q)", o.Outlives, o.Err)
 	case o.Err != "":
 		return "error: " + o.Err
 	}
@@ -129,6 +132,7 @@ type c07Exec struct {
 func (x *c07Exec) exec(ch vsched.Chooser, logOn bool) (pruned bool) {
 	var pj *simdjson.ParsedJson
 	var err error
+	live := 0
 	x.internal = nil
 	text := x.doc.text
 	x.res = vsched.Run(ch, vsched.Options{MaxSteps: 200000, Log: logOn}, func() {
@@ -140,9 +144,10 @@ func (x *c07Exec) exec(ch vsched.Chooser, logOn bool) (pruned bool) {
 		} else {
 			pj, err = simdjson.Parse(text, seed)
 		}
+		live = vsched.LiveOthers()
 	})
 	x.last = pj
-	x.out = c07Outcome{Deadlock: x.res.Deadlock, Livelock: x.res.Livelock}
+	x.out = c07Outcome{Deadlock: x.res.Deadlock, Livelock: x.res.Livelock, Outlives: live}
 	if x.res.Panic != nil {
 		x.out.Panic = fmt.Sprint(x.res.Panic)
 	}
@@ -195,7 +200,7 @@ func c07Body(w *W) {
 			w.res.Validated++
 			bad := ""
 			switch {
-			case canon.Deadlock || canon.Livelock || canon.Panic != "":
+			case canon.Deadlock || canon.Livelock || canon.Panic != "" || canon.Outlives > 0:
 				bad = canon.String()
 			case verdict == ref.Valid && canon.Err != "":
 				bad = "content is valid but the default schedule fails: " + canon.Err
@@ -244,6 +249,8 @@ func c07Body(w *W) {
 						fp = "livelock"
 					} else if x.out.Panic != "" {
 						fp = "panic"
+					} else if x.out.Outlives > 0 {
+						fp = "stage-outlives-call"
 					}
 					w.Violate(Violation{Harness: "C07-" + kind, Fingerprint: "C07/" + fp + "/" + doc.name, What: fmt.Sprintf("schedule with %d preemptions gives %s; the default schedule (and the content) give %s", pre, x.out, canon), Case: enc, CaseText: fmt.Sprintf("%s schedule %v", doc.name, compressChoices(choices)), Config: kind})
 				}
@@ -335,7 +342,7 @@ func c07Replay(v *Violation) string {
 		x.exec(zeroChooser{}, false)
 		canon := x.out
 		x.exec(&prefixChooser{p: cs.Choices}, false)
-		if x.out.Deadlock || x.out.Livelock || x.out.Panic != "" {
+		if x.out.Deadlock || x.out.Livelock || x.out.Panic != "" || x.out.Outlives > 0 {
 			return "FAIL " + x.out.String()
 		}
 		_, verdict := ref.Parse(doc.text)
@@ -356,7 +363,7 @@ func c07Replay(v *Violation) string {
 func init() {
 	register(&check{
 		prop: "C07", name: "pipeline-schedules", level: "model_checking",
-		rule:   "Stateless model checking of the implementation: the package is source-instrumented (cmd/vinstr) so every go statement, channel operation, select, WaitGroup and atomic operation is a scheduling point of a controlled scheduler (vsched) that runs one thread at a time; for each of 10 (11) documents above the 8 KiB threshold (valid, stage-2 error early/late, stage-1 error early/late, both, NDJSON, no-structurals tail, just above threshold; 6 to 40 index buffers) every interleaving of producer and consumer with at most 2 (thorough 3) preemptions is executed, and additionally every interleaving outright with pruning on an exact state key (thread progress, channel contents, tape words, cursor). Oracle: outcome (error or exact tape) equals the default schedule's, which is itself checked against the independent grammar model and reference tree; no deadlock, no livelock, all threads exit. states=scheduling points visited (bounded) + distinct state keys (unbounded), transitions=branches pushed, traces_validated=complete schedules judged; distinct_nontrivial=distinct (document, outcome) pairs.",
+		rule:   "Stateless model checking of the implementation: the package is source-instrumented (cmd/vinstr) so every go statement, channel operation, select, WaitGroup and atomic operation is a scheduling point of a controlled scheduler (vsched) that runs one thread at a time; for each of 10 (11) documents above the 8 KiB threshold (valid, stage-2 error early/late, stage-1 error early/late, both, NDJSON, no-structurals tail, just above threshold; 6 to 40 index buffers) every interleaving of producer and consumer with at most 2 (thorough 3) preemptions is executed, and additionally every interleaving outright with pruning on an exact state key (thread progress, channel contents, tape words, cursor). Oracle: outcome (error or exact tape) equals the default schedule's, which is itself checked against the independent grammar model and reference tree; no deadlock, no livelock, and both stages have finished when the call returns (no goroutine of the call outlives it). states=scheduling points visited (bounded) + distinct state keys (unbounded), transitions=branches pushed, traces_validated=complete schedules judged; distinct_nontrivial=distinct (document, outcome) pairs.",
 		assume: []string{"interleaving granularity = synchronisation operations; plain-memory races and weak memory are outside this exploration (supported by the free-running -race pass of C20)", "assembly kernels and everything between two scheduling points are atomic steps"},
 		body:   c07Body,
 		replay: c07Replay,
